@@ -6,6 +6,8 @@ os.makedirs(os.path.join(here, "build"), exist_ok=True)
 env = dict(os.environ, CARGO_NET_OFFLINE="true")
 r = subprocess.run(["cargo", "build", "--offline", "--quiet"], cwd=os.path.join(here, "replay"), env=env)
 print("replay crate build:", "ok" if r.returncode == 0 else "FAILED (witness search will be unavailable)")
+r = subprocess.run(["cargo", "build", "--offline", "--quiet"], cwd=os.path.join(here, "replay_rt"), env=env)
+print("replay_rt crate build:", "ok" if r.returncode == 0 else "FAILED (the real-socket / schedule harnesses will be unavailable)")
 r = subprocess.run(["verus", "--version"], capture_output=True, text=True)
 print(r.stdout.strip() or r.stderr.strip())
 sys.exit(0)
